@@ -3,6 +3,15 @@
 From AF Require Import Lib.Bytes Lib.Path Lib.Ops Gen.Consts.
 Local Open Scope Z_scope.
 
+(* the calls ReadOnlyFs forwards to its source; every other call is answered with EPERM *)
+Definition ro_passes (o : op) : bool :=
+  match o with
+  | Create _ | Mkdir _ _ | MkdirAll _ _ | Remove _ | RemoveAll _ | Rename _ _
+  | Chmod _ _ | Chown _ _ _ | Chtimes _ _ => false
+  | OpenFile _ flag _ => Z.eqb (Z.land flag readonly_mask) 0
+  | _ => true
+  end.
+
 Section ReadOnly.
 Context {St : Type} (inner : St -> op -> St * res).
 
